@@ -166,6 +166,7 @@ func RunWorker(spec WorkerSpec) *WorkerResult {
 				os.WriteFile(spec.Out+".cur.tmp", w.JSON(), 0o644)
 				os.Rename(spec.Out+".cur.tmp", spec.Out+".cur")
 			}
+			shapeProbes(w, st)
 			curWorld.Store(w.Clone())
 			markStart(&curStart)
 			defer curStart.Store(0)
@@ -280,4 +281,40 @@ func ReadResult(path string, sets [4]map[uint64]struct{}) (*WorkerResult, error)
 		}
 	}
 	return &res, nil
+}
+
+// shapeProbes counts, per world, the size class of its largest program (source
+// nodes; event mode doubles them in the flat program) and its nesting depth:
+// the widths the engine stores positions and jump targets in make 127/255
+// nodes and the 8/16-slot operand stacks the boundaries worth reaching.
+func shapeProbes(w *World, st *Stats) {
+	max, depth := 0, 0
+	see := func(n *Node) {
+		if n == nil {
+			return
+		}
+		if s := n.Size(); s > max {
+			max = s
+		}
+		if d := n.Depth(); d > depth {
+			depth = d
+		}
+	}
+	see(w.Prog)
+	for _, p := range w.Progs {
+		see(p)
+	}
+	switch {
+	case max > 1000:
+		st.Probe("program_nodes_over_1000")
+	case max > 255:
+		st.Probe("program_nodes_256_1000")
+	case max > 127:
+		st.Probe("program_nodes_128_255")
+	case max > 32:
+		st.Probe("program_nodes_33_127")
+	}
+	if depth >= 9 {
+		st.Probe("program_depth_9_or_more")
+	}
 }
